@@ -7,6 +7,11 @@ ALL = ["C%02d" % i for i in range(1, 21)]
 
 # id -> (category, technique, level text, level note, design ref, engine)
 CHECKS = {
+ "C02": ("model_checking",
+         "bounded-exhaustive enumeration of (source, box) pairs against the lookup oracle: all boxes at low zoom, all boxes over a border alphabet at high zoom, all empty encodings; streams executed on a real multi-thread runtime",
+         "For 55 sources (five container readers over six representative tile sets written by the repository's writers, the converting reader with all 4 flag combinations restricted and unrestricted over a MemSource and a versatiles file, eight pipelines incl. overlays, filters, nestings, from_debug and a real file) every box at z<=2 (quick) / z<=3 (thorough), every box with corners from {0,255,256,511,coverage edges (+-1),max} at the sets' high zoom levels and every empty encoding at levels 0,1,7,8,9,31 is streamed; the multiset of streamed tiles must equal the lookups inside the box, nothing outside, no panic.",
+         "The source dimension is a representative list, not closed; boxes above 4096 tiles are compared on the universe of coordinates that can hold a tile; readers that use the trait's default lookup-loop stream are not given boxes above 300k tiles. Interleavings of the parallel stream stages are C14's subject; here they run free on a 4-worker runtime.",
+         "3/C02", "E-enum"),
  "C01": ("model_checking",
          "explicit-state BFS over tile sets (add-one-tile transitions, canonical sorted map) x formats x (format, compression) pairs; every state written by the real writer and decided by the real reader and an independent spec decoder",
          "Every tile set reachable by adding up to 2 (quick) / 3 (thorough) tiles from a 14-coordinate x 5-payload alphabet (both sides of the 256 block grid, zoom gaps, duplicate payloads, 999/1000/1001 bytes) is written to all five formats; lookups on a probe set, streams over every advertised level and the independent decoder must all give the source mapping; declared format/compression compared where expressible; versatiles de-duplication checked structurally. Plus every accepted (format, compression) pair, named families (16900 tiles -> PMTiles leaf directories, full pyramid, 70/100 KiB payloads, level 31, level-14 sparse) and a sweep of tile counts around the PMTiles root/leaf switch.",
